@@ -1,5 +1,10 @@
 import OnlVerif.Lemmas.KernelStep
 import OnlVerif.Lemmas.KAccess
+import OnlVerif.Lemmas.SplitStep
+import OnlVerif.Lemmas.SplitDemo
+import OnlVerif.Lemmas.SplitDemoTime
+import OnlVerif.Lemmas.SplitScript
+import OnlVerif.Lemmas.SplitFuelStep
 import OnlVerif.Props.C01
 /-!
 # C03 — runs are reproducible and unaffected by where they are stopped and resumed
@@ -11,10 +16,15 @@ Determinism needs no theorem: the model is a function of the program and the ini
 clock, no hash order and no object identity in it — `run_deterministic` records that.  Hash-seed independence of
 the *implementation* is sampled by the correspondence check (fresh interpreters), not proved.
 
-`split_transparent` — that cutting a run into pieces yields the concatenation of the pieces' traces — is proved here
-for the two facts it rests on (`stop_is_deferred`, `sentinel_*`) and checked on generated split plans by the
-correspondence check against the implementation *and* against the model; the full simulation argument
-("agendas equal up to one sentinel") is stated in the comment at the end and is **not** proved.
+Split transparency — cutting a run into `step()`, `run(until=event)` and `run(until=number)` pieces yields the trace
+of the uninterrupted run — is proved in three stages (sections below; helper lemmas in `Lemmas/Split*.lean`):
+1. `step()` splits: `step_split_transparent`, `step_plan_transparent`, `run_budget_split`, `steps_then_run`;
+2. `run(until=event)`: `until_event_split_transparent` (the run returns in *exactly* a state of the uninterrupted run),
+   with the simulation lemma `until_event_sim_step`, the lockstep `until_event_lockstep`, and stale stops;
+3. `run(until=number)`: `until_time_split_transparent_partial` (a simulation up to the renaming of the event ids
+   allocated after the sentinel; partial: under well-scopedness hypotheses listed there).
+The comment at the end says exactly what remains open.  The correspondence check compares split and uninterrupted runs of
+the implementation with each other and with the model on generated split plans.
 -/
 
 namespace C03
@@ -85,16 +95,293 @@ theorem run_returns_stop_value (body : σ → Resume → Burst ℚ σ) (fuel n :
     runLoop body fuel (some e) (n + 1) s = .returned v s' := by
   simp only [runLoop, h, onStop, Option.bind_some, hok]
 
+
+/-! ## Split transparency, stage 1: `step()` splits
+
+The observation trace is the field `KState.trace` of the state, so every equation between results below is in
+particular an equation between traces. -/
+
+/-- **`n + m` calls of `step()` are `n` calls followed by `m` calls from the state reached** — same state, same trace,
+same way of ending (a stop, an exception or an empty agenda in the first piece ends the whole sequence there). -/
+theorem step_split_transparent (body : σ → Resume → Burst ℚ σ) (fuel n m : Nat) (s : KState ℚ σ) :
+    stepN body fuel (n + m) s = (stepN body fuel n s).andThen (stepN body fuel m) :=
+  stepN_add body fuel n m s
+
+/-- **Any split plan of `step()` budgets is the single uninterrupted sequence of the same total length**: the pieces,
+run one after the other, end in the state (and so with the trace) of `plan.sum` consecutive `step()` calls. -/
+theorem step_plan_transparent (body : σ → Resume → Burst ℚ σ) (fuel : Nat) (plan : List Nat) (s : KState ℚ σ) :
+    stepPlan body fuel plan s = stepN body fuel plan.sum s :=
+  stepPlan_eq body fuel plan s
+
+/-- **Two pieces that both returned normally compose to the uninterrupted piece, trace included.** -/
+theorem step_split_trace (body : σ → Resume → Burst ℚ σ) (fuel n m : Nat) (s s1 s2 : KState ℚ σ)
+    (h1 : stepN body fuel n s = .ok s1) (h2 : stepN body fuel m s1 = .ok s2) :
+    stepN body fuel (n + m) s = .ok s2 ∧
+      ∀ s', stepN body fuel (n + m) s = .ok s' → s'.trace = s2.trace := by
+  have h := (stepN_add_ok body fuel n m s s1 h1).trans h2
+  refine ⟨h, ?_⟩
+  intro s' hs'
+  rw [h] at hs'
+  cases hs'
+  rfl
+
+/-- **The loop of `run` with step budget `n + m` is the loop with budget `n`, continued with budget `m` from the state
+in which the budget ran out**; a loop that ended (return, exception) within the first `n` steps is not continued. -/
+theorem run_budget_split (body : σ → Resume → Burst ℚ σ) (fuel : Nat) (u : Option EvId) (n m : Nat) (s : KState ℚ σ) :
+    runLoop body fuel u (n + m) s = (runLoop body fuel u n s).andThen (runLoop body fuel u m) :=
+  runLoop_add body fuel u n m s
+
+/-- **`k` calls of `step()` followed by `run(...)` are that `run(...)` started `k` steps earlier**: a loop that runs out
+of budget after `k` steps did exactly the `k` calls of `step()`, and conversely the loop continues from the state the
+`k` calls reached. -/
+theorem steps_then_run (body : σ → Resume → Burst ℚ σ) (fuel : Nat) (u : Option EvId) (k n : Nat) (s s1 : KState ℚ σ)
+    (h : stepN body fuel k s = .ok s1) :
+    runLoop body fuel u k s = .outOfFuel s1 ∧ runLoop body fuel u (k + n) s = runLoop body fuel u n s1 :=
+  ⟨(runLoop_outOfFuel_iff body fuel u k s s1).mpr h, runLoop_of_stepN_ok body fuel u k n s s1 h⟩
+
+/-! ## Split transparency, stage 2: `run(until=event)` splits
+
+`run(until=e)` changes the state in one way only: it appends `Cb.stop` (`StopSimulation.callback`) to the callback list of
+`e`.  `KState.stripBy P` erases the stops of the events selected by `P` (`KState.strip`: of all events);
+`StopEq P s1 s2` := `s1.stripBy P = s2.stripBy P` ("equal except for stops on `P`-events");
+`StopFree P s` := `s.stripBy P = s` ("no `P`-event carries a stop", `StopFree.iff`); `AllStopFree` := `StopFree (fun _ => true)`.
+`Lemmas/SplitStrip*.lean` prove, function by function (all 18 API calls, bursts of every program, `_resume`, interrupt
+delivery, conditions, resource scans, the callback loop), that the erasure commutes with the model:
+`f (s.stripBy P) = (f s).stripBy P`, every reply / flag / branch condition being the same. -/
+
+/-- **The simulation lemma (one kernel step).**  If `s2` is the stop-free state `s1` plus `StopSimulation` callbacks (on
+events selected by `P`, at arbitrary positions of their callback lists) and `s1` does a normal step to `s1'`, then `s2`
+does the same step — it ends normally or with `StopSimulation` — to a state that is again `s1'` plus stop callbacks:
+every process resumed by the one is resumed by the other, in the same order, with the same values. -/
+theorem until_event_sim_step (body : σ → Resume → Burst ℚ σ) (fuel : Nat) (P : EvId → Bool) (s1 s2 s1' : KState ℚ σ)
+    (hf : StopFree P s1) (heq : StopEq P s1 s2) (h : step body fuel s1 = .ok s1') :
+    ∃ s2', (step body fuel s2 = .ok s2' ∨ ∃ o, step body fuel s2 = .stopped o s2') ∧ StopEq P s1' s2' ∧ StopFree P s1' :=
+  step_sim body fuel P s1 s2 s1' hf heq h
+
+/-- **Erasing stops commutes with a step, however the step ends** (normally, with `StopSimulation`, with an exception):
+the step from the erased state ends in the erasure of the state the step with the stops ends in.  In particular both
+steps append the same observations to the trace. -/
+theorem stop_erasure_commutes_with_step (body : σ → Resume → Burst ℚ σ) (fuel : Nat) (P : EvId → Bool) (s s' : KState ℚ σ)
+    (h : (step body fuel s).st? = some s') :
+    (step body fuel (s.stripBy P)).st? = some (s'.stripBy P) ∧ (s'.stripBy P).trace = s'.trace :=
+  ⟨step_stripBy_st P body fuel s s' h, rfl⟩
+
+/-- **A step ends with `StopSimulation` exactly when the callback list of the event it processes holds a stop.** -/
+theorem step_stops_iff_stop_registered (body : σ → Resume → Burst ℚ σ) (fuel : Nat) (s : KState ℚ σ) :
+    (∃ o s', step body fuel s = .stopped o s') ↔ ∃ q rest, popMin s.agenda = some (q, rest) ∧ s.hasStop q.ev = true :=
+  step_stopped_iff body fuel s
+
+/-- **The model never registers a stop**: a state in which no `P`-event carries a stop steps to such a state. -/
+theorem stop_free_preserved (body : σ → Resume → Burst ℚ σ) (fuel : Nat) (P : EvId → Bool) (s s' : KState ℚ σ)
+    (hf : StopFree P s) (h : (step body fuel s).st? = some s') : StopFree P s' :=
+  step_stopFree P body fuel s s' hf h
+
+/-- **While `run(until=e)` is running it is in lockstep with the uninterrupted run**: after `k` of its steps the state is
+the state of `k` uninterrupted steps plus stop callbacks, and those sit on `e` only. -/
+theorem until_event_lockstep (body : σ → Resume → Burst ℚ σ) (fuel k : Nat) (e : EvId) (s s2 : KState ℚ σ)
+    (hf : AllStopFree s) (h : stepN body fuel k (s.addCb e .stop) = .ok s2) :
+    stepN body fuel k s = .ok s2.strip ∧ s2.strip.trace = s2.trace ∧ StopFree (fun i => i != e) s2 :=
+  ⟨(runUntilEvent_lockstep body fuel k e s s2 hf h).1, rfl, (runUntilEvent_lockstep body fuel k e s s2 hf h).2⟩
+
+/-- **`run(until=event)` is transparent.**  From a state without stale stops, for an event `e` that is not processed yet:
+if `run(until=e)` returns (value `v`, state `s'`), then `s'` is *exactly* the state that `k + 1` uninterrupted `step()`
+calls reach, for some `k + 1 ≤` the step budget — same event table, agenda, clock, processes, resources and **the same
+trace**: no process was lost, duplicated or reordered by the stop.  `s'` carries no stop callback any more (`e` is
+processed), so every continuation — more `step()`s, any `run(...)` — continues the uninterrupted run. -/
+theorem until_event_split_transparent (body : σ → Resume → Burst ℚ σ) (fuel n : Nat) (e : EvId) (s s' : KState ℚ σ) (v : Val)
+    (hf : AllStopFree s) (hp : s.processed e = false) (h : runUntilEvent body fuel n e s = .returned v s') :
+    ∃ k, k < n ∧ stepN body fuel (k + 1) s = .ok s' ∧ AllStopFree s' ∧
+      (∀ m, stepN body fuel (k + 1 + m) s = stepN body fuel m s') ∧
+      (∀ u m, runLoop body fuel u (k + 1 + m) s = runLoop body fuel u m s') := by
+  obtain ⟨k, hk, h1, h2⟩ := runUntilEvent_transparent body fuel n e s s' v hf hp h
+  exact ⟨k, hk, h1, h2, fun m => stepN_add_ok body fuel (k + 1) m s s' h1,
+    fun u m => runLoop_of_stepN_ok body fuel u (k + 1) m s s' h1⟩
+
+/-- the hypotheses of `until_event_split_transparent` are satisfiable: in the two-process program of
+`Lemmas/SplitDemo.lean`, after `step(); step()`, `run(until=ev)` returns 7 — hence (by the theorem) in a state of the
+uninterrupted run -/
+example : ∃ k, k < 20 ∧ stepN SplitDemo.body 3 (k + 1) SplitDemo.s2 = .ok SplitDemo.s5 :=
+  let ⟨k, hk, h, _⟩ := until_event_split_transparent SplitDemo.body 3 20 SplitDemo.ev SplitDemo.s2 SplitDemo.s5 (.int 7)
+    SplitDemo.s2_stopFree SplitDemo.ev_pending SplitDemo.r5_returned
+  ⟨k, hk, h⟩
+
+/-- computed by the model: the whole split plan `step(); step(); run(until=ev); run(until=6); run()` leaves the trace
+(13 observations) of the single `run()` -/
+example : (SplitDemo.RunResult.st SplitDemo.r9).trace = (SplitDemo.RunResult.st SplitDemo.rAll).trace ∧
+    (SplitDemo.RunResult.st SplitDemo.rAll).trace.size = 13 := ⟨SplitDemo.split_trace_eq, SplitDemo.trace_size⟩
+
+/-- **A stale stop is harmless for `step()` calls**: a stop callback left behind on some event by an earlier `run(until=…)`
+that ended otherwise (an exception, an empty agenda) does not change what any number of normally returning `step()`
+calls do: same states up to the stops, same trace. -/
+theorem stale_stop_harmless_for_steps (body : σ → Resume → Burst ℚ σ) (fuel k : Nat) (s s' : KState ℚ σ)
+    (h : stepN body fuel k s = .ok s') : stepN body fuel k s.strip = .ok s'.strip ∧ s'.strip.trace = s'.trace :=
+  ⟨stepN_stripBy_ok _ body fuel k s s' h, rfl⟩
+
+/-- **… but it ends a later `run` early** (as in the implementation, where the callback raises `StopSimulation` out of
+`step()` whoever is running the loop): when the event carrying the stale stop is processed, a `run(until=u)` returns the
+*stale* event's value — or raises the exception of its own until-event if that has failed (`onStop`) —, in a state that is
+still a state of the uninterrupted run up to stops. -/
+theorem stale_stop_ends_later_run (body : σ → Resume → Burst ℚ σ) (fuel n : Nat) (u : Option EvId) (s s' : KState ℚ σ)
+    (o : Outcome) (h : step body fuel s = .stopped o s') :
+    runLoop body fuel u (n + 1) s = onStop u o s' ∧ (step body fuel s.strip).st? = some s'.strip :=
+  ⟨by simp only [runLoop, h], step_stripBy_st _ body fuel s s' (by rw [h]; rfl)⟩
+
+/-- a stale stop on `ev` (as an aborted `run(until=ev)` leaves it) makes a plain `run()` return 7 at time 2 -/
+example : SplitDemo.RunResult.val? (runAll SplitDemo.body 3 20 (SplitDemo.s2.addCb SplitDemo.ev .stop)) = some (.int 7) ∧
+    (SplitDemo.RunResult.st (runAll SplitDemo.body 3 20 (SplitDemo.s2.addCb SplitDemo.ev .stop))).now = 2 := by
+  decide +kernel
+
+/-- **`run(until=e)` that ends with an exception has also followed the uninterrupted run** (a crashing callback, an
+empty agenda, a failed until-event): `k` normal steps in lockstep, then a step that ends in the same state up to stops,
+or an empty agenda in the same state. -/
+theorem until_event_split_raised (body : σ → Resume → Burst ℚ σ) (fuel n : Nat) (e : EvId) (s s' : KState ℚ σ) (x : Exc)
+    (hf : AllStopFree s) (hp : s.processed e = false) (h : runUntilEvent body fuel n e s = .raised x s') :
+    ∃ k s1, k < n ∧ stepN body fuel k s = .ok s1 ∧
+      ((step body fuel s1).st? = some s'.strip ∨ (step body fuel s1 = .empty ∧ s1 = s'.strip)) :=
+  runUntilEvent_raised body fuel n e s s' x hf hp h
+
+/-! ## Split transparency, stage 3: `run(until=number)` splits
+
+The sentinel is a fresh event record at index `u = events.size`: every event allocated afterwards has, in the split run,
+the id it has in the uninterrupted run plus one.  `c : SplitCfg σ` records a split (`c.u`, the sentinel's `eid` `c.eid0`,
+the time `c.t`, and `c.rσ`, the renaming of ids kept in local process states); `c.ρ = shAt c.u` is the order-preserving
+renaming; `c.T queued s` is the state of the split run that corresponds to the state `s` of the uninterrupted run (one
+extra record at `c.u`, all ids renamed — in callback lists, kinds, process table, agenda, request data, values, resource
+queues, shared slots and trace —, `eid` counter and later `eid`s one ahead, and, while `queued`, the agenda entry
+`(c.t, URGENT, c.eid0, c.u)` at its insertion-stable position).  `Lemmas/SplitSent*.lean` prove, function by function
+(all 18 API calls, bursts, `_resume`, interrupts, conditions, resource scans, the callback loop), that `c.T queued`
+commutes with the model on states after the split.  Hypotheses of the theorems:
+
+* `BodySim c.ρ c.rσ body` — the program treats event ids as opaque tokens: renaming the ids in its local state and in what
+  it is resumed with renames the ids in the calls it makes (and nothing else).  True of every Python generator (ids are
+  not observable there); it excludes model programs that compute with ids (`succeed (e + 1)`).
+* `c.Closed s` — the state at the split is well-scoped: it mentions no id `≥ events.size` and no `eid ≥ s.eid`.
+* `SortedAg s` — the agenda list is newest-first (`eid`s decreasing, below the counter); kept by every step.
+* `c.FuelAlong body fuel s` — `Condition._build_value` of a condition with id `cd` recurses with fuel `cd + 1`; in the split
+  run that is `cd + 2` for conditions created after the split; the hypothesis says one more unit changes nothing, in the
+  states of the uninterrupted run in which a `_build_value` runs.  It follows from two state invariants at step
+  boundaries (`fuel_hypothesis_of_wellformed`: operands are older than their condition, `CondWF`, and `_build_value`
+  callbacks belong to allocated conditions, `BuildAlloc`); it is vacuous for conditions created before the split
+  (`FuelOK_of_lt`) and when no `_build_value` is pending (`stepFuelOK_of_noBuild`). -/
+
+/-- **The step that pops the sentinel does nothing else**: it advances the clock to `t`, marks the sentinel record processed
+and raises `StopSimulation(None)`; the state it leaves, `c.afterSentinel s`, is the uninterrupted state `s` up to the
+renaming, plus the dead sentinel record, with the clock at `t`. -/
+theorem sentinel_pop_only_stops (c : SplitCfg σ) (body : σ → Resume → Burst ℚ σ) (fuel : Nat) (s : KState ℚ σ) (h : c.Inv s)
+    (hp : popMin (c.T true s).agenda = some (c.sentEntry, s.agenda.map c.rnEntry)) :
+    step body fuel (c.T true s) = .stopped (.ok .none) (c.afterSentinel s) ∧
+      (c.afterSentinel s).now = c.t ∧ (c.afterSentinel s).trace = s.trace.map (rnObs c.ρ) ∧
+      (c.afterSentinel s).agenda = s.agenda.map c.rnEntry ∧ (c.afterSentinel s).ev c.u = SplitCfg.deadRec false :=
+  ⟨c.step_sentinel s body fuel h hp, rfl, rfl, rfl, c.ev_T_u false s h⟩
+
+/-- **One step while the sentinel is queued**: the split run pops the (renamed) entry the uninterrupted run pops and does
+the (renamed) step — unless the sentinel's key `(t, URGENT, eid0)` is smaller, then it pops the sentinel. -/
+theorem sentinel_queued_step (c : SplitCfg σ) (body : σ → Resume → Burst ℚ σ) (hB : BodySim c.ρ c.rσ body) (fuel : Nat)
+    (s : KState ℚ σ) (h : c.Inv s) (hs : SortedAg s) (hf : c.stepFuelOK body fuel s) :
+    step body fuel (c.T true s) =
+      match popMin s.agenda with
+      | none => .stopped (.ok .none) (c.afterSentinel s)
+      | some (m, _) =>
+        if (c.rnEntry m).lt c.sentEntry then c.mapT true (step body fuel s)
+        else .stopped (.ok .none) (c.afterSentinel s) :=
+  c.step_T_true s body hB fuel h hs hf
+
+/-- **One step after the sentinel is gone**: the split run does exactly the renamed step of the uninterrupted run, however
+it ends. -/
+theorem sentinel_gone_step (c : SplitCfg σ) (body : σ → Resume → Burst ℚ σ) (hB : BodySim c.ρ c.rσ body) (fuel : Nat)
+    (s : KState ℚ σ) (h : c.Inv s) (hf : c.stepFuelOK body fuel s) :
+    step body fuel (c.T false s) = c.mapT false (step body fuel s) :=
+  c.step_T_false s body hB fuel h hf
+
+/-- **`run(until=t)` is transparent up to the renaming of event ids** (partial: under the four hypotheses listed above).
+If `run(until=t)` returns from a well-scoped, stop-free state `s` with `now < t`, it returns `None` in the state
+`c.afterSentinel sk` where `sk` is the state the uninterrupted run reaches after some `k <` budget normal steps: **the
+trace of the split run is the trace of the uninterrupted run with the ids renamed**; the clock is `t`; the returned state
+carries no stop; every entry processed was due before the sentinel's key `(t, URGENT, eid0)` — strictly before `t`, or
+at `t` itself, URGENT and queued before the sentinel —, and the next entry of the uninterrupted run (if any) is not. -/
+theorem until_time_split_transparent_partial (c : SplitCfg σ) (body : σ → Resume → Burst ℚ σ) (fuel n : Nat)
+    (s s' : KState ℚ σ) (v : Val)
+    (hu : c.u = s.events.size) (he : c.eid0 = s.eid) (hlt : s.now < c.t)
+    (hc : c.Closed s) (hs : SortedAg s) (hns : AllStopFree s) (hB : BodySim c.ρ c.rσ body)
+    (hf : c.FuelAlong body fuel s) (h : runUntilTime body fuel n c.t s = .returned v s') :
+    v = .none ∧ ∃ k sk, k < n ∧ stepN body fuel k s = .ok sk ∧ s' = c.afterSentinel sk ∧
+      s'.trace = sk.trace.map (rnObs c.ρ) ∧ s'.now = c.t ∧ AllStopFree s' ∧
+      (∀ j, j < k → ∀ sj m rest, stepN body fuel j s = .ok sj → popMin sj.agenda = some (m, rest) →
+        (m.time < c.t ∨ (m.time = c.t ∧ m.prio = URGENT ∧ m.eid < c.eid0))) ∧
+      (∀ m rest, popMin sk.agenda = some (m, rest) →
+        ¬ (m.time < c.t ∨ (m.time = c.t ∧ m.prio = URGENT ∧ m.eid < c.eid0))) := by
+  obtain ⟨hv, k, sk, hk, h1, h2, _, _, h5, h6, h7⟩ :=
+    c.runUntilTime_transparent body fuel n s s' v hu he hlt hc hs hns hB hf h
+  exact ⟨hv, k, sk, hk, h1, h2, by rw [h2]; rfl, by rw [h2]; rfl, h5, h6, h7⟩
+
+/-- **… and every continuation stays the uninterrupted run with renamed ids, for ever**: `j + 1` further normal steps of
+the uninterrupted run from `sk` are `j + 1` normal steps from the state in which `run(until=t)` returned, to the
+corresponding state (`c.T false sj`: renamed ids, dead sentinel record, nothing else) — same trace up to the renaming. -/
+theorem after_time_split_lockstep_partial (c : SplitCfg σ) (body : σ → Resume → Burst ℚ σ) (hB : BodySim c.ρ c.rσ body)
+    (fuel j : Nat) (sk sj : KState ℚ σ) (hi : c.Inv sk) (hf : c.FuelAlong body fuel sk)
+    (h : stepN body fuel (j + 1) sk = .ok sj) :
+    stepN body fuel (j + 1) (c.afterSentinel sk) = .ok (c.T false sj) ∧
+      (c.T false sj).trace = sj.trace.map (rnObs c.ρ) :=
+  ⟨c.after_split_lockstep body hB fuel j sk sj hi hf h, rfl⟩
+
+/-- **What the driver prints is unaffected by the renaming**: the trace lines identify an event by its creation label and
+a process by the name kept in its local state; corresponding events have the same label, the same outcome up to the
+renaming and render to the same text (`renderSimple` reads labels only), and corresponding processes have the
+corresponding local state (the same one when, as for script programs, local states hold no ids: `c.rσ = id`). -/
+theorem rendering_invariant (c : SplitCfg σ) (q : Bool) (s : KState ℚ σ) (h : c.Inv s) (e p : Nat) (v : Val) :
+    ((c.T q s).ev (c.ρ e)).label = (s.ev e).label ∧
+    renderSimple (c.T q s) (rnVal c.ρ v) = renderSimple s v ∧
+    freezeVal (c.T q s) (rnVal c.ρ v) = rnVal c.ρ (freezeVal s v) ∧
+    (c.T q s).proc? (c.ρ p) = (s.proc? p).map (rnProc c.ρ c.rσ) :=
+  ⟨c.label_T q s h e, c.r_renderSimple q s h v, c.r_freezeVal q s h v, c.proc?_T q s p⟩
+
+/-- **The agenda list stays newest-first** (`SortedAg`: `eid`s strictly decreasing along the list and below the counter):
+it holds for an empty agenda and is kept by every API call and by every step, however the step ends — so the
+`SortedAg` hypothesis of the stage-3 theorems holds in every state reached from a fresh environment. -/
+theorem agenda_sorted_invariant (body : σ → Resume → Burst ℚ σ) (fuel : Nat) (s : KState ℚ σ) (hs : SortedAg s) :
+    (∀ self cl, SortedAg (doCall s self cl).1) ∧ (∀ s', (step body fuel s).st? = some s' → SortedAg s') :=
+  ⟨fun self cl => SortedAg.krel.doCall s self cl hs, fun s' h => SplitCfg.sortedAg_step body fuel s s' hs h⟩
+
+/-- **The fuel hypothesis follows from two invariants of the states of the uninterrupted run** (at step boundaries):
+`CondWF` — the operands of every condition are older than the condition — and `BuildAlloc` — a `_build_value` callback
+belongs to an allocated condition.  (Both hold in every reachable state of an API-only program; not proved here.) -/
+theorem fuel_hypothesis_of_wellformed (c : SplitCfg σ) (body : σ → Resume → Burst ℚ σ) (fuel : Nat) (s : KState ℚ σ)
+    (h : ∀ j sj, stepN body fuel j s = .ok sj → CondWF sj ∧ BuildAlloc sj) : c.FuelAlong body fuel s :=
+  fun j sj hj => c.stepFuelOK_of_wf body fuel sj (h j sj hj).1 (h j sj hj).2
+
+/-- **Every program of the script language treats event ids as opaque tokens** (`BodySim` for every renaming): the
+programs the correspondence check generates and runs on the real kernel satisfy the program hypothesis of the stage-3
+theorems, provided the value literals in the program text are not event ids (`ProgsClosed`). -/
+theorem script_programs_are_id_opaque (ρ : EvId → EvId) (progs : Progs ℚ) (h : ProgsClosed progs) :
+    BodySim ρ id (_root_.body progs) :=
+  script_bodySim ρ progs h
+
+/-- the hypotheses of `until_time_split_transparent_partial` are satisfiable: the state `s5` of the demo (after
+`step(); step(); run(until=ev)`) with the split `run(until=6)` -/
+example : ∃ k sk, k < 20 ∧ stepN SplitDemo.body 3 k SplitDemo.s5 = .ok sk ∧
+    SplitDemo.s6.trace = sk.trace.map (rnObs SplitDemo.cfg.ρ) ∧ SplitDemo.s6.now = 6 :=
+  let ⟨_, k, sk, hk, h1, _, h3, h4, _, _, _⟩ := until_time_split_transparent_partial SplitDemo.cfg SplitDemo.body 3 20
+    SplitDemo.s5 SplitDemo.s6 .none rfl rfl SplitDemo.s5_now SplitDemo.s5_closed SplitDemo.s5_sorted SplitDemo.s5_stopFree
+    SplitDemo.cfg_body_sim SplitDemo.s5_fuel SplitDemo.r6_returned
+  ⟨k, sk, hk, h1, h3, h4⟩
+
+/-- computed by the model: it is `k = 2`, and the trace has 10 observations -/
+example : SplitDemo.s6.trace = (SplitDemo.stOf (stepN SplitDemo.body 3 2 SplitDemo.s5) SplitDemo.s5).trace.map
+    (rnObs SplitDemo.cfg.ρ) ∧ SplitDemo.s6.trace.size = 10 := SplitDemo.s6_trace
+
 /-
-Not proved (stated for the record): `split_transparent` —
-  for every program and every split plan, the concatenation of the observation traces of the pieces equals the
-  observation trace of the uninterrupted run up to the same horizon, and the final states agree up to the sentinels.
-The intended proof is a simulation: the state of the split run equals the state of the uninterrupted run except for
-(1) one extra agenda entry `(t, URGENT, eid_u, sentinel)` while `now < t`, (2) one extra event record, (3) shifted `eid`
-values for entries pushed after the sentinel — which preserves their relative order —, and (4) one extra `.stop`
-callback on the until-event.  `until_time_plants_sentinel`, `stop_is_deferred`, `callbacks_after_stop_still_run` and C01's
-`pop_is_minimum` are the local facts it needs; the relation itself (an `eid`-renaming) is not formalised.  The
-correspondence check compares split and uninterrupted runs of the implementation with each other and with the model.
+What remains open for `split_transparent` (everything else above is proved for every program and every state):
+* stages 1 and 2 (`step()` and `run(until=event)` splits) are complete: the split run passes through *exactly* the states
+  of the uninterrupted run.
+* stage 3 (`run(until=number)`) is proved as a simulation up to the id renaming `shAt u`, under hypotheses that are
+  invariants of reachable states but are not proved to be: `c.Closed s` at the split (no id is used before it is
+  allocated) and `c.FuelAlong` (reduced by `fuel_hypothesis_of_wellformed` to: operands of a condition are older than the
+  condition, `_build_value` callbacks belong to allocated conditions — so the id-dependent recursion fuel of
+  `Condition._build_value` is never the limit).  Discharging them needs one more walk through the model for the
+  well-scopedness invariant (`KRel` is too coarse for it: its `newEv`/`addCb` leaves allow arbitrary records and
+  callbacks).  `BodySim` (programs treat ids as opaque) is a genuine hypothesis on model programs, not a gap.
+* chaining several numeric splits needs `Closed` of the state *after* a split — the same missing invariant.
+* determinism across interpreter hash seeds is sampled by the correspondence check, not proved.
 -/
 
 end C03
